@@ -1,5 +1,8 @@
 #!/bin/sh
 # Build the Lean project (models, proofs, property theorems, drivers). Offline.
 set -e
-cd "$(dirname "$0")/lean"
+cd "$(dirname "$0")"
+# translator: regenerate lean/YardlGenerated from /repo's current source (also re-done by the checks that use it)
+python3 harness/py/gen_tables.py
+cd lean
 lake build YardlModel YardlProofs Props wiredrv
